@@ -5,6 +5,7 @@ import (
 	"fmt"
 	"math/big"
 	mrand "math/rand"
+	"strings"
 	"sync/atomic"
 	"time"
 
@@ -25,10 +26,15 @@ import (
 // goes on.  Every k of the call is tried, in both directions.
 
 type RaceSpec struct {
-	Dir string `json:"dir"` // "wbws-first": WriteBlockWithState(M) is interrupted by InsertChain(H); "insert-first": the reverse
-	M   int    `json:"m"`   // node written by the first writer
-	H   int    `json:"h"`   // node written by the competitor
-	K   int64  `json:"k"`   // the competitor starts at the first writer's k-th database operation
+	// "wbws-first": WriteBlockWithState(M) is interrupted at its K-th database operation by InsertChain(H);
+	// "insert-first": the reverse.  "convoy:<a>:<b>" (a, b in {insert, wbws}): a reader holds the chain
+	// mutex (BlockChain.ExportN blocks inside our io.Writer); writer a(H) runs up to the mutex, then writer
+	// b(M) runs up to the mutex; the reader lets go: H is written first, then M with whatever it read
+	// before it got the mutex.
+	Dir string `json:"dir"`
+	M   int    `json:"m"` // node written by the first writer
+	H   int    `json:"h"` // node written by the competitor
+	K   int64  `json:"k"` // the competitor starts at the first writer's k-th database operation
 }
 
 // raceTree: 1-2 (100 each); 3 and 4 on 2 (100 and 150: siblings, 4 heavier); 5 on 1 (300: a heavier
@@ -143,6 +149,76 @@ func runRace(c *vh.Ctx, t *Tree, rs RaceSpec) (*core.BlockChain, *RecDB, raceOut
 	return bc, db, out
 }
 
+// blockingWriter blocks in its first Write until released (keeps ExportN inside bc.mu.RLock).
+type blockingWriter struct {
+	entered chan struct{}
+	release chan struct{}
+	once    bool
+}
+
+func (w *blockingWriter) Write(p []byte) (int, error) {
+	if !w.once {
+		w.once = true
+		close(w.entered)
+		<-w.release
+	}
+	return len(p), nil
+}
+
+// runConvoy: see RaceSpec.Dir.
+func runConvoy(c *vh.Ctx, t *Tree, rs RaceSpec) (*core.BlockChain, *RecDB, raceOutcome) {
+	var out raceOutcome
+	out.compRan = "convoy"
+	db := NewRecDB()
+	t.Gspec.MustCommit(db)
+	bc, err := core.NewBlockChain(context.Background(), db, &core.CacheConfig{Disabled: true}, t.Config, t.Engine, vm.Config{})
+	if err != nil {
+		c.Fatal("race: NewBlockChain: %v", err)
+	}
+	if _, err := bc.InsertChain(types.Blocks{t.Blocks[1], t.Blocks[2]}); err != nil {
+		c.Fatal("race: base import: %v", err)
+	}
+	var ka, kb string
+	fmt.Sscanf(strings.ReplaceAll(rs.Dir, ":", " "), "convoy %s %s", &ka, &kb)
+	writer := func(kind string, n int) func() {
+		if kind == "wbws" {
+			return func() { writeAsMiner(bc, t, n) }
+		}
+		return func() { bc.InsertChain(types.Blocks{t.Blocks[n]}) }
+	}
+	w := &blockingWriter{entered: make(chan struct{}), release: make(chan struct{})}
+	expDone := make(chan struct{})
+	go func() { defer close(expDone); bc.ExportN(w, 0, 0) }()
+	select {
+	case <-w.entered:
+	case <-time.After(10 * time.Second):
+		out.deadlock = "ExportN never reached the writer"
+		return bc, db, out
+	}
+	mrand.Seed(1)
+	dones := []chan struct{}{make(chan struct{}), make(chan struct{})}
+	for i, f := range []func(){writer(ka, rs.H), writer(kb, rs.M)} {
+		i, f := i, f
+		go func() {
+			defer close(dones[i])
+			if p, pv := vh.CatchPanic(f); p {
+				out.panicked = fmt.Sprint("writer: ", pv)
+			}
+		}()
+		time.Sleep(250 * time.Millisecond) // long enough to run up to the chain mutex and park there
+	}
+	close(w.release)
+	for _, d := range append(dones, expDone) {
+		select {
+		case <-d:
+		case <-time.After(15 * time.Second):
+			out.deadlock = "a writer never returned after the reader released the chain mutex"
+			return bc, db, out
+		}
+	}
+	return bc, db, out
+}
+
 // raceOracle: both blocks were valid and delivered: the head must be a heaviest one, TDs additive
 // (cache and database), and the number index must describe the head's chain.
 func raceOracle(c *vh.Ctx, t *Tree, sc *Scenario, rs RaceSpec, bc *core.BlockChain, db *RecDB, out raceOutcome) {
@@ -201,10 +277,25 @@ func RunRaces(c *vh.Ctx, only *RaceSpec, scIn *Scenario) {
 	}
 	t := BuildTree(c, sc.Nodes)
 	if only != nil {
-		bc, db, out := runRace(c, t, *only)
+		run := runRace
+		if strings.HasPrefix(only.Dir, "convoy") {
+			run = runConvoy
+		}
+		bc, db, out := run(c, t, *only)
 		raceOracle(c, t, sc, *only, bc, db, out)
 		bc.Stop()
 		return
+	}
+	for _, dir := range []string{"convoy:insert:wbws", "convoy:wbws:insert", "convoy:wbws:wbws"} {
+		for _, pair := range [][2]int{{3, 4}, {5, 7}} {
+			rs := RaceSpec{Dir: dir, M: pair[0], H: pair[1]}
+			bc, db, out := runConvoy(c, t, rs)
+			raceOracle(c, t, sc, rs, bc, db, out)
+			if out.deadlock == "" {
+				bc.Stop()
+			}
+			c.Eval("race:"+dir, fmt.Sprintf("race/%s/%d/%d", dir, pair[0], pair[1]))
+		}
 	}
 	for _, dir := range []string{"wbws-first", "insert-first"} {
 		for _, pair := range [][2]int{{3, 4}, {5, 7}, {6, 5}} {
